@@ -121,13 +121,13 @@ type StableCase struct {
 }
 
 func pktObs(p *rtp.Packet) string {
-	s := fmt.Sprintf("V%d P%v X%v M%v PT%d seq%d ts%d ssrc%d csrc%v pad%d payload=%x",
+	s := fmt.Sprintf("V%d P%v X%v M%v PT%d seq%d ts%d ssrc%d csrc%v pad%d payload=%s",
 		p.Version, p.Padding, p.Extension, p.Marker, p.PayloadType, p.SequenceNumber, p.Timestamp, p.SSRC,
-		append([]uint32{}, p.CSRC...), p.PaddingSize, p.Payload)
+		append([]uint32{}, p.CSRC...), p.PaddingSize, hb(p.Payload))
 	if p.Extension {
 		s += fmt.Sprintf(" prof%#x ids=%v", p.ExtensionProfile, p.GetExtensionIDs())
 		for _, id := range p.GetExtensionIDs() {
-			s += fmt.Sprintf(" %d=%x", id, p.GetExtension(id))
+			s += fmt.Sprintf(" %d=%s", id, hb(p.GetExtension(id)))
 		}
 	}
 
